@@ -542,8 +542,11 @@ class AttributeSet(TypedExpression):
             target = (
                 name_expr.model_copy() if name_expr is not None else Identifier(key)
             )
-            self_scope = Scope(self.values, owner=self)
-            context_scopes = tuple(list(scopes_for_owner(self)) + [self_scope])
+            context_scopes = tuple(scopes_for_owner(self))
+            if not self.recursive:
+                # (the chain of a `rec` set already ends with its own members; a
+                # second copy would make `inherit name;` look like a cycle)
+                context_scopes += (Scope(self.values, owner=self),)
             set_resolution_context(target, context_scopes)
             return target
         try:
